@@ -166,7 +166,7 @@ def gen_value(r):
     if k < 0.55:
         return r.choice(['', ' ', '  '])
     if k < 0.7:
-        return r.choice(['a:b', 'x/y z', 'q.r', 'a  b', ' lead', 'trail ', 'é t', 'a#b c', '1.2 3'])
+        return r.choice(['a:b', 'x/y z', 'q.r', 'a  b', ' lead', 'trail ', 'é t', 'a#b c', '1.2 3', 'cost-in-$', 'US$ 5', '$x', '${id}'])
     return r.choice(['a', 'b', 'a', 'sec'])
 
 
